@@ -234,6 +234,12 @@ void gen_c06(Gen &g) {
     long need = k + 15L * (nl + 2) + 64;
     long n = internal ? -1 : std::max<long>(need, r.chance(1, 2) ? 4096 : r.range(256, 8192));
     std::vector<std::string> prog = gen_program(r, nl, r.chance(1, 2) ? 6 : 0, -1);
+    // programs repeat lines: the same line twice in a row, and the first line again at the end
+    if (r.chance(1, 4) && !prog.empty()) {
+      size_t at = r.below(prog.size());
+      prog.insert(prog.begin() + (long)at, (size_t)r.range(1, 2), prog[at]);
+    }
+    if (r.chance(1, 4) && !prog.empty()) prog.push_back(prog[0]);
     t.ops.push_back(mk_create(g, 0, n));
     if (setopts) emit_opts(g, t, 0, mov, swap, nobase);
     if (k || r.coin()) {
@@ -243,6 +249,20 @@ void gen_c06(Gen &g) {
     }
     int style = (int)r.below(4);
     emit_split(g, t, 0, prog, style == 0 ? 0 : style == 1 ? 1 : 1, style == 1 ? 1 : 3);
+    if (r.chance(1, 3)) {
+      // repetition on the same instance: the caller may have overwritten its buffer and changed options meanwhile
+      if (!internal && r.chance(2, 3)) {
+        Op rf = g.mk(OP_REFILL, 0);
+        rf.fill = rand_fill(r);
+        t.ops.push_back(rf);
+      }
+      if (r.chance(1, 3)) emit_opts(g, t, 0, (int)r.below(3), (int)r.below(2), (int)r.below(2));
+      Op so2 = g.mk(OP_OFFSET, 0);
+      so2.k = k;
+      t.ops.push_back(so2);
+      int st2 = (int)r.below(3);
+      emit_split(g, t, 0, prog, st2 == 0 ? 0 : 1, st2 == 1 ? 1 : 3);
+    }
     if (r.coin()) {
       // the same program on a second instance with other initial contents, in one call
       t.ops.push_back(mk_create(g, 1, internal ? std::max<long>(need, 4096) : n));
